@@ -98,6 +98,12 @@ theorem auth_step (s s' : St) (a : Act) (ha : a.authOf = none) (hs : step s a = 
   | setNextCheck c v =>
     simp only [step] at hs; split at hs <;> simp at hs; subst hs
     exact key c _ ⟨rfl, rfl⟩
+  | ownResched c now v =>
+    simp only [step] at hs; split at hs <;> simp at hs; subst hs
+    exact key c _ ⟨rfl, rfl⟩
+  | rearm c now v =>
+    simp only [step] at hs; split at hs <;> simp at hs; subst hs
+    exact key c _ ⟨rfl, rfl⟩
   | nextCheckChanged c =>
     simp only [step] at hs; split at hs <;> simp at hs; subst hs
     exact key c _ (by unfold Chk.nextCheckChanged Chk.schedulable; grind)
@@ -150,13 +156,14 @@ theorem krel_of_auth (s s' : St) (sp : SpecSt) (hk : KRel s sp)
 structure Rel (s : St) (sp : SpecSt) : Prop where
   inv : Inv s
   flight : ∀ c, FlightInv (s.chk c)
+  rearm : ∀ c, RearmInv (s.chk c)
   max : sp.max = s.max
   nodup : sp.executing.Nodup
   mem : ∀ c, c ∈ sp.executing ↔ (s.chk c).execs = 1
   len : (sp.executing.length : Int) = s.executing
 
 theorem rel_init (n : Nat) (max : Int) (hm : 0 ≤ max) : Rel (init n max) { max := max } := by
-  refine ⟨inv_init n max hm, fun _ => by unfold FlightInv init; rfl, rfl, List.nodup_nil, ?_, ?_⟩
+  refine ⟨inv_init n max hm, fun _ => by unfold FlightInv init; rfl, rearm_init n max, rfl, List.nodup_nil, ?_, ?_⟩
   · intro c; simp [init, Chk.execs]
   · show (0 : Int) = sumTo n (fun _ => ((({} : Chk)).execs : Int))
     have : ∀ k, sumTo k (fun _ => ((({} : Chk)).execs : Int)) = 0 := by
@@ -180,13 +187,13 @@ theorem loc_ok (s : St) (sp : SpecSt) (h : Inv s) (hk : KRel s sp) (c : Nat) :
     cases b <;> cases hi : (s.chk c).inIdle <;> cases hp : (s.chk c).inPending <;> simp_all
 
 theorem rel_known_irrel (s : St) (sp : SpecSt) (k : List (Nat × Bool)) (h : Rel s sp) : Rel s { sp with known := k } :=
-  ⟨h.inv, h.flight, h.max, h.nodup, h.mem, h.len⟩
+  ⟨h.inv, h.flight, h.rearm, h.max, h.nodup, h.mem, h.len⟩
 
 /-- an action that changes no `execs` keeps the relation (the specification state does not move) -/
 theorem rel_same_hx (s s' : St) (sp : SpecSt) (a : Act) (h : Rel s sp)
     (hs : step s a = some s') (hx : ∀ c, (s'.chk c).execs = (s.chk c).execs) (he : s'.executing = s.executing) :
     Rel s' sp :=
-  ⟨inv_step s s' a h.inv hs, flight_step s s' a h.flight hs, by rw [h.max, (step_n_max s s' a hs).2],
+  ⟨inv_step s s' a h.inv hs, flight_step s s' a h.flight hs, rearm_step s s' a h.rearm hs, by rw [h.max, (step_n_max s s' a hs).2],
    h.nodup, fun c => by rw [hx c]; exact h.mem c, by rw [he]; exact h.len⟩
 
 /-- replacing checkable `c` by a state with the same `hx` changes no `hx` and not the number of executions -/
@@ -221,7 +228,7 @@ theorem procExit_ends (x : Chk) (hf : FlightInv x) (hp : 0 < x.procs) : x.execs 
 /-- an execution of `c` ends (`execs` 1 → 0): the `execEnd` observation passes and the relation holds for the list
     without `c`; stated for any state `s'` that differs from `s.upd c x` at most in the counter -/
 theorem rel_exec_end (s : St) (sp : SpecSt) (c : Nat) (x : Chk) (hc : c < s.n) (h : Rel s sp) {s' : St}
-    (hinv' : Inv s') (hfl' : ∀ i, FlightInv (s'.chk i))
+    (hinv' : Inv s') (hfl' : ∀ i, FlightInv (s'.chk i)) (hre' : ∀ i, RearmInv (s'.chk i))
     (hold : (s.chk c).execs = 1) (hnew : x.execs = 0)
     (hchk : s'.chk = (s.upd c x).chk := by rfl) (hn : s'.n = s.n := by rfl) (hmx : s'.max = s.max := by rfl) :
     specTrace sp [Ev.execEnd c] = none ∧ Rel s' (specRun sp [Ev.execEnd c]) := by
@@ -232,7 +239,7 @@ theorem rel_exec_end (s : St) (sp : SpecSt) (c : Nat) (x : Chk) (hc : c < s.n) (
   constructor
   · simp [specTrace, specStep, hmem]
   · simp only [specRun, List.foldl, specNext]
-    refine ⟨hinv', hfl', (by show sp.max = s'.max; rw [hmx]; exact h.max), h.nodup.erase c, ?_, ?_⟩
+    refine ⟨hinv', hfl', hre', (by show sp.max = s'.max; rw [hmx]; exact h.max), h.nodup.erase c, ?_, ?_⟩
     · intro i
       rw [h.nodup.mem_erase_iff, hchk]
       simp only [St.upd]
@@ -337,6 +344,18 @@ theorem rel_step (s s' : St) (sp : SpecSt) (a : Act) (h : Rel s sp) (hk : KRel s
     simp only [step] at hs; split at hs <;> simp at hs; subst hs
     have := same_hx_upd s c ((s.chk c).setNextCheck v) (by assumption) rfl
     exact quiet this.1 this.2 (by simp [obsStep])
+  | ownResched c now v =>
+    have hs0 := hs
+    simp only [step] at hs; split at hs <;> simp at hs; subst hs
+    rename_i hg
+    have := same_hx_upd s c ((s.chk c).ownResched v) hg.1 rfl
+    exact quiet this.1 this.2 (by simp [obsStep])
+  | rearm c now v =>
+    have hs0 := hs
+    simp only [step] at hs; split at hs <;> simp at hs; subst hs
+    rename_i hg
+    have := same_hx_upd s c ((s.chk c).rearm v) hg.1 rfl
+    exact quiet this.1 this.2 (by simp [obsStep])
   | nextCheckChanged c =>
     have hs0 := hs
     simp only [step] at hs; split at hs <;> simp at hs; subst hs
@@ -371,9 +390,9 @@ theorem rel_step (s s' : St) (sp : SpecSt) (a : Act) (h : Rel s sp) (hk : KRel s
         · exact loc_ok _ sp hinv' (hk' rfl) c
       · rename_i hsk
         simp at hs; subst hs
-        have hsame := same_hx_upd s c (s.chk c).pick hc rfl
-        have hx' : ∀ i, (({ s.upd c (s.chk c).pick with counter := s.counter + 1 } : St).chk i).execs = (s.chk i).execs := hsame.1
-        have he' : ({ s.upd c (s.chk c).pick with counter := s.counter + 1 } : St).executing = s.executing := hsame.2
+        have hsame := same_hx_upd s c ((s.chk c).pick now) hc rfl
+        have hx' : ∀ i, (({ s.upd c ((s.chk c).pick now) with counter := s.counter + 1 } : St).chk i).execs = (s.chk i).execs := hsame.1
+        have he' : ({ s.upd c ((s.chk c).pick now) with counter := s.counter + 1 } : St).executing = s.executing := hsame.2
         refine quiet hx' he' ?_
         intro ev hev
         have hsk' : Chk.skipsIn (s.chk c).forced i = false := by simpa using hsk
@@ -414,7 +433,7 @@ theorem rel_step (s s' : St) (sp : SpecSt) (a : Act) (h : Rel s sp) (hk : KRel s
           rw [h.max]; omega
         simp [hle]
       · simp only [obsStep, hrun, Bool.false_eq_true, if_false, specRun, List.foldl, specNext]
-        refine ⟨hinv', flight_step s _ _ h.flight hs0, (by show sp.max = s.max; exact h.max), ?_, ?_, ?_⟩
+        refine ⟨hinv', flight_step s _ _ h.flight hs0, rearm_step s _ _ h.rearm hs0, (by show sp.max = s.max; exact h.max), ?_, ?_, ?_⟩
         · exact List.nodup_cons.2 ⟨hnotmem, h.nodup⟩
         · intro i
           simp only [List.mem_cons, St.upd]
@@ -430,7 +449,7 @@ theorem rel_step (s s' : St) (sp : SpecSt) (a : Act) (h : Rel s sp) (hk : KRel s
     simp only [step] at hs; split at hs <;> simp at hs; subst hs
     rename_i hg
     have he := result_ends _ (h.flight c) hg.2
-    exact rel_exec_end s sp c (s.chk c).result hg.1 h hinv' (flight_step s _ _ h.flight hs0) he.1 he.2
+    exact rel_exec_end s sp c (s.chk c).result hg.1 h hinv' (flight_step s _ _ h.flight hs0) (rearm_step s _ _ h.rearm hs0) he.1 he.2
   | spawn c =>
     have hs0 := hs
     simp only [step] at hs; split at hs <;> simp at hs; subst hs
@@ -450,7 +469,7 @@ theorem rel_step (s s' : St) (sp : SpecSt) (a : Act) (h : Rel s sp) (hk : KRel s
     simp only [step] at hs; split at hs <;> simp at hs; subst hs
     rename_i hg
     have he := procExit_ends _ (h.flight c) hg.2
-    exact rel_exec_end s sp c (s.chk c).procExit hg.1 h hinv' (flight_step s _ _ h.flight hs0) he.1 he.2
+    exact rel_exec_end s sp c (s.chk c).procExit hg.1 h hinv' (flight_step s _ _ h.flight hs0) (rearm_step s _ _ h.rearm hs0) he.1 he.2
   | procResult c =>
     have hs0 := hs
     simp only [step] at hs; split at hs <;> simp at hs; subst hs
@@ -469,7 +488,19 @@ theorem rel_step (s s' : St) (sp : SpecSt) (a : Act) (h : Rel s sp) (hk : KRel s
     have hsame := same_hx_upd s c (s.chk c).helperDec hg.1 rfl
     have hx' : ∀ i, (({ s.upd c (s.chk c).helperDec with counter := s.counter - 1 } : St).chk i).execs = (s.chk i).execs := hsame.1
     have he' : ({ s.upd c (s.chk c).helperDec with counter := s.counter - 1 } : St).executing = s.executing := hsame.2
-    exact quiet hx' he' (by simp [obsStep])
+    refine quiet hx' he' ?_
+    intro e he
+    simp only [obsStep] at he
+    split at he
+    · simp at he
+    · rename_i hfor
+      simp only [List.mem_singleton] at he; subst he
+      refine ⟨rfl, ?_⟩
+      -- the helper has passed the early UpdateNextCheck and nobody interfered: next_check lies after the dispatch
+      have hre := h.rearm c
+      unfold RearmInv at hre
+      have hlt : (s.chk c).dispatchedAt < (s.chk c).nextCheck := hre (by simpa using hfor) (by have := hg.2; omega)
+      simp [specStep, hlt]
   | helperFinish c =>
     have hs0 := hs
     simp only [step] at hs; split at hs <;> simp at hs; subst hs
